@@ -33,7 +33,7 @@ CHECKS = {
          "DESIGN.md 6/C02"),
  "C04": ("exploration",
          "deterministic simulation: the finite precondition truth table visited by seeded permutation (consumed completely by the quick tier) and revisited inside random histories incl. an interleaved second request during a resumable upload; refinement with full-state diff after every failing request",
-         "All 13440 combinations of the four condition parameters x object state x operation x store are executed and compared with the truth table of the statement; every non-2xx answer is followed by a read-back of every object, which must be unchanged.",
+         "All 26250 combinations of the four condition parameters x object state x operation x store are executed and compared with the truth table of the statement; every non-2xx answer is followed by a read-back of every object, which must be unchanged.",
          "Trusted: evalConds (the truth table written from the statement), the object model. This property depends on no schedule; the simulator contributes enumeration, the clock and the interleaved-request case.",
          "DESIGN.md 6/C04"),
  "C07": ("exploration",
